@@ -7,7 +7,7 @@ Pipeline shared by all properties (DESIGN.md section 3 and 7):
   -> re-execution of every rejected event on the real code -> known finding | VIOLATION -> evidence.
 Exit codes: 0 held, 1 violation, 2 infrastructure problem (never reported as a violation).
 """
-import json, os, re, shutil, subprocess, sys, tempfile, time, concurrent.futures, hashlib
+import json, os, re, shutil, subprocess, sys, tempfile, threading, time, concurrent.futures, hashlib
 
 VERIF = os.path.dirname(os.path.dirname(os.path.abspath(__file__)))
 REPO = os.environ.get("VERIF_REPO", "/repo")
@@ -48,10 +48,14 @@ class Ctx:
         self.known = []
         self.extra = {}
         self.quick = tier == "quick"
+        self.is_replay = False
+        self._lock = threading.Lock()
 
     def dir(self, name=None):
-        self.n += 1
-        d = os.path.join(self.scratch, "%s%d" % (name or "d", self.n))
+        with self._lock:
+            self.n += 1
+            n = self.n
+        d = os.path.join(self.scratch, "%s%d" % (name or "d", n))
         os.makedirs(d)
         return d
 
@@ -277,7 +281,17 @@ def validate(ctx, module, events, cfg=None, shards=None, stateless=True, timeout
 
 
 # ---------------------------------------------------------------- verdicts
+_KNOWN = None
+
+
 def load_known():
+    global _KNOWN
+    if _KNOWN is None:
+        _KNOWN = _load_known()
+    return _KNOWN
+
+
+def _load_known():
     """known_findings.json (committed index) plus known/<ID>.json (per-property lists, same entry format)."""
     out = []
     p = os.path.join(VERIF, "known_findings.json")
@@ -353,8 +367,9 @@ def finish(ctx, level="model_checking", rule="", assumptions=(), trusted=()):
     cov.update(ctx.extra)
     ev = dict(property_id=ctx.prop, tier=ctx.tier, seed=ctx.seed, level=level, coverage=cov,
               assumptions=list(assumptions), wall_s=round(wall, 1), violations=len(ctx.rejected))
-    os.makedirs(os.path.join(VERIF, "evidence"), exist_ok=True)
-    json.dump(ev, open(os.path.join(VERIF, "evidence", ctx.prop + ".json"), "w"), indent=1)
+    if not ctx.is_replay:       # a --replay run judges one recorded case and must not replace the evidence of the last full run
+        os.makedirs(os.path.join(VERIF, "evidence"), exist_ok=True)
+        json.dump(ev, open(os.path.join(VERIF, "evidence", ctx.prop + ".json"), "w"), indent=1)
     print("%s %s seed=%d: %d TLC states, %d impl events judged, %d traces, %d rejected, %d known, %.1fs" % (
         ctx.prop, ctx.tier, ctx.seed, ctx.states, ctx.evaluations, ctx.traces, len(ctx.rejected),
         len(ctx.known), wall), flush=True)
